@@ -174,8 +174,14 @@ def jobs(tier, seed):
         nparts = 6 if m <= 3 else 12
         for part in range(nparts):
             out.append(dict(engine='mp', m=m, t=t, no_prss=no_prss, part=part, parts=nparts, tier=tier, seed=seed))
+    # many parties: the conversion mask is a sum of C(m,t) PRF outputs; its bound must shrink accordingly (all-max pattern)
+    for (m, t) in ((7, 3), (6, 2)) if tier == 'quick' else ((7, 3), (6, 2), (7, 2), (6, 1)):
+        out.append(dict(engine='mp', m=m, t=t, no_prss=False, part=0, parts=1, tier=tier, seed=seed, wide=True))
     out.sort(key=lambda j: -(j.get('m', 0)))
     return out
+
+
+WIDE = ('int3>int5', 'int5>int10', 'int3>fxp63', 'int5>int6', 'fxp63>fxp82', 'int6>int5')
 
 
 def run_job(job):
@@ -183,6 +189,8 @@ def run_job(job):
         return exact.run_sp('C06', job, build)
     names = None
     MULT[0] = math.comb(job['m'], job['t']) if not job['no_prss'] else job['t'] + 1
+    if job.get('wide'):
+        return exact.run_mp('C06', job, build, base_k=4, batch=12, names=WIDE, patterns=('max', 'seeded'))
     if job['tier'] == 'quick':
         # field -> field goes through SecInt(32) and is expensive: a few pairs only in the quick tier
         names = [n for n in build(exact.Dummy()) if not (n.split('>')[0] in FLD and n.split('>')[1] in FLD) or n in ('fld11u>fld13s', 'fld13s>fld101u')]
